@@ -133,6 +133,18 @@ static int _yr_ac_queue_is_empty(QUEUE* queue)
 }
 
 ////////////////////////////////////////////////////////////////////////////////
+// Removes all the states remaining in a queue, releasing its nodes. Used when
+// a traversal is abandoned because of an error.
+//
+// Args:
+//   queue: Pointer to the queue.
+//
+static void _yr_ac_queue_clear(QUEUE* queue)
+{
+  while (!_yr_ac_queue_is_empty(queue)) _yr_ac_queue_pop(queue);
+}
+
+////////////////////////////////////////////////////////////////////////////////
 // Given an automaton state and an input symbol, returns the new state
 // after reading the input symbol.
 //
@@ -239,7 +251,8 @@ static int _yr_ac_create_failure_links(YR_AC_AUTOMATON* automaton)
 
   while (state != NULL)
   {
-    FAIL_ON_ERROR(_yr_ac_queue_push(&queue, state));
+    FAIL_ON_ERROR_WITH_CLEANUP(
+        _yr_ac_queue_push(&queue, state), _yr_ac_queue_clear(&queue));
     state->failure = root_state;
     state = state->siblings;
   }
@@ -272,7 +285,8 @@ static int _yr_ac_create_failure_links(YR_AC_AUTOMATON* automaton)
 
     while (transition_state != NULL)
     {
-      FAIL_ON_ERROR(_yr_ac_queue_push(&queue, transition_state));
+      FAIL_ON_ERROR_WITH_CLEANUP(
+        _yr_ac_queue_push(&queue, transition_state), _yr_ac_queue_clear(&queue));
       failure_state = current_state->failure;
 
       while (1)
@@ -370,7 +384,8 @@ static int _yr_ac_optimize_failure_links(YR_AC_AUTOMATON* automaton)
 
   while (state != NULL)
   {
-    FAIL_ON_ERROR(_yr_ac_queue_push(&queue, state));
+    FAIL_ON_ERROR_WITH_CLEANUP(
+        _yr_ac_queue_push(&queue, state), _yr_ac_queue_clear(&queue));
     state = state->siblings;
   }
 
@@ -389,7 +404,8 @@ static int _yr_ac_optimize_failure_links(YR_AC_AUTOMATON* automaton)
 
     while (state != NULL)
     {
-      FAIL_ON_ERROR(_yr_ac_queue_push(&queue, state));
+      FAIL_ON_ERROR_WITH_CLEANUP(
+        _yr_ac_queue_push(&queue, state), _yr_ac_queue_clear(&queue));
       state = state->siblings;
     }
   }
@@ -591,7 +607,8 @@ static int _yr_ac_build_transition_table(YR_AC_AUTOMATON* automaton)
 
     yr_bitmask_set(automaton->bitmask, child_state->input + 1);
 
-    FAIL_ON_ERROR(_yr_ac_queue_push(&queue, child_state));
+    FAIL_ON_ERROR_WITH_CLEANUP(
+        _yr_ac_queue_push(&queue, child_state), _yr_ac_queue_clear(&queue));
     child_state = child_state->siblings;
   }
 
@@ -599,8 +616,10 @@ static int _yr_ac_build_transition_table(YR_AC_AUTOMATON* automaton)
   {
     state = _yr_ac_queue_pop(&queue);
 
-    FAIL_ON_ERROR(_yr_ac_find_suitable_transition_table_slot(
-        automaton, automaton->arena, state, &slot));
+    FAIL_ON_ERROR_WITH_CLEANUP(
+        _yr_ac_find_suitable_transition_table_slot(
+            automaton, automaton->arena, state, &slot),
+        _yr_ac_queue_clear(&queue));
 
     // _yr_ac_find_suitable_transition_table_slot can allocate more space in
     // both tables and cause the tables to be moved to a different memory
@@ -636,7 +655,8 @@ static int _yr_ac_build_transition_table(YR_AC_AUTOMATON* automaton)
 
       yr_bitmask_set(automaton->bitmask, child_state->t_table_slot);
 
-      FAIL_ON_ERROR(_yr_ac_queue_push(&queue, child_state));
+      FAIL_ON_ERROR_WITH_CLEANUP(
+        _yr_ac_queue_push(&queue, child_state), _yr_ac_queue_clear(&queue));
 
       child_state = child_state->siblings;
     }
